@@ -29,6 +29,10 @@ structure Cfg where
   /-- `PatchExpired` holds `capMu` until its per-treasure patches are done (`defer Unlock`);
       `false`: it releases `capMu` right after the count+select step -/
   expiredHoldsCapMu : Bool
+  /-- `PatchExpired`'s count covers every record of the swamp; `false`: it is taken over the
+      expiration-time index only (`SelectExpiredForPatchWithCap` on `expirationTimeBeaconASC`), so
+      matching records that carry no `ExpiredAt` are not counted -/
+  expiredCountsAll : Bool := true
   deriving DecidableEq, Repr
 
 inductive Pc where
@@ -61,14 +65,24 @@ structure St where
   recs : List Bool
   /-- `present[k]`: record `k` exists (an absent record does not match) -/
   present : List Bool
+  /-- `expiring[k]`: record `k` carries an `ExpiredAt` (it is in the expiration-time index) -/
+  expiring : List Bool
   capMu : Option Nat
   batch : Nat → Batch
   max : Nat
 
 def matching (s : St) : Nat := s.recs.count true
 
-def initP (recs present : List Bool) (max : Nat) : St :=
-  { recs := recs, present := present, capMu := none, batch := fun _ => Batch.empty, max := max }
+/-- matching records that are in the expiration-time index -/
+def matchingExp (s : St) : Nat :=
+  ((List.range s.recs.length).filter fun k => s.recs.getD k false && s.expiring.getD k false).length
+
+/-- arbitrary contents: which records match, exist, carry an expiry -/
+def initE (recs present expiring : List Bool) (max : Nat) : St :=
+  { recs := recs, present := present, expiring := expiring, capMu := none, batch := fun _ => Batch.empty, max := max }
+
+/-- every record carries an expiry -/
+def initP (recs present : List Bool) (max : Nat) : St := initE recs present (recs.map fun _ => true) max
 
 /-- every record of the universe exists -/
 def init (recs : List Bool) (max : Nat) : St := initP recs (recs.map fun _ => true) max
@@ -134,7 +148,7 @@ def step (cfg : Cfg) (s : St) : Act → Option St
     if cfg.expiredHoldsCapMu = false ∧ x.expired = true ∧ x.pc = .run ∧ s.capMu = some b then
       some { s with capMu := none }
     else none
-  | .delete k => some { s with recs := s.recs.set k false, present := s.present.set k false }
+  | .delete k => some { s with recs := s.recs.set k false, present := s.present.set k false, expiring := s.expiring.set k false }
   | .first b =>
     let x := s.batch b
     if x.pc = .ready then
@@ -147,8 +161,9 @@ def step (cfg : Cfg) (s : St) : Act → Option St
     if x.pc = .half then
       if cfg.countAfterLock || x.expired then
         -- (PatchExpired: count and select under one beacon lock — at most `budget` candidates)
-        some { s with batch := setBatch s b { x with pc := .run, counted := matching s, budget := s.max - matching s,
-                                                      todo := if x.expired then x.todo.take (s.max - matching s) else x.todo } }
+        let m := if x.expired && !cfg.expiredCountsAll then matchingExp s else matching s
+        some { s with batch := setBatch s b { x with pc := .run, counted := m, budget := s.max - m,
+                                                      todo := if x.expired then x.todo.take (s.max - m) else x.todo } }
       else
         if s.capMu = none then
           some { s with capMu := some b, batch := setBatch s b { x with pc := .run, budget := s.max - x.counted } }
